@@ -215,3 +215,33 @@ func claimTagsFact(g *genCtx) string {
 	return "/-- JSON member name of every tagged field of oidc.TokenClaims / oidc.IDTokenClaims (pkg/oidc/token.go) -/\ndef tokenClaimsTags : List (String × String) :=\n  [" +
 		strings.Join(rows, ",\n   ") + "]\n"
 }
+
+// ---- (round 4, seeded C01-P) the DECODER of the time claims the verifier's guards read: (*oidc.Time).UnmarshalJSON, and the two
+// conversions between oidc.Time and time.Time (Time.AsTime is what GetExpiration / GetIssuedAt / GetAuthTime hand to the guards).
+// The same FuncSpec as the codec slice's (C12, namespace GenCodec), regenerated into the C01 slice's own file and namespace so
+// that the link "the instant a time guard sees is the value of the JSON number" (Proofs/C01Time.lean) depends on this function
+// only. encoding/json on `any` and time.Parse are oracle parameters (`Cdc.Oracles`), quantified over in every theorem.
+func init() {
+	extraGroups = append(extraGroups, Group{
+		Out:     "C01Time.lean",
+		NS:      "GenC01T",
+		Imports: []string{"OidcModel.Model.CodecWrap"},
+		Opens:   []string{"Go", "Cdc"},
+		Funcs: []FuncSpec{
+			c12Spec(FuncSpec{File: "pkg/oidc/types.go", Name: "Time.UnmarshalJSON", Lean: "TimeUnmarshalJSON",
+				Params: []string{"(o : Oracles)", "(ts : Int)", "(data : String)"}, Ret: RetErr, RetParam: "ts", RetType: "Int",
+				LocalOut: map[string]OutParam{"json.Unmarshal": {1, false}}, DropArgs: []string{"&v", "time.RFC3339"},
+				Rename: map[string]string{"json.Unmarshal()": "(o).jsonAny", "time.Parse()": "(o).timeParse", "Time()": "Cdc.F64.toInt64"}}),
+			// the other custom decoder among the claims the verifier reads: `aud` (a string or an array of strings)
+			c12Spec(FuncSpec{File: "pkg/oidc/types.go", Name: "Audience.UnmarshalJSON", Lean: "AudienceUnmarshalJSON",
+				Params: []string{"(o : Oracles)", "(a : List String)", "(text : String)"}, Ret: RetErr, RetParam: "a", RetType: "(List String)",
+				LocalOut: map[string]OutParam{"json.Unmarshal": {1, false}}, DropArgs: []string{"&i"},
+				TypeAsserts: map[string]string{"string": "Cdc.JVal.asString"},
+				Rename:      map[string]string{"json.Unmarshal()": "(o).jsonAny"}}),
+			c12Spec(FuncSpec{File: "pkg/oidc/types.go", Name: "Time.AsTime", Lean: "TimeAsTime", Params: []string{"(ts : Int)"}, Ret: RetVal, RetType: "Int",
+				Rename: map[string]string{"time.Time{}": "Go.zeroTime", "time.Unix()": "Cdw.timeUnix"}}),
+			c12Spec(FuncSpec{File: "pkg/oidc/types.go", Name: "FromTime", Lean: "FromTime", Params: []string{"(tt : Int)"}, Ret: RetVal, RetType: "Int",
+				Rename: map[string]string{"tt.IsZero()": "(Go.tIsZero tt)", "tt.Unix()": "(Go.tToUnix tt)"}}),
+		},
+	})
+}
